@@ -19,11 +19,11 @@ for p in "$V"/selftest/mutants/*.patch "$V"/seeded/*/patch.diff; do
     case " $ONLY " in *" $name "*) ;; *) continue;; esac
   fi
   scr=$(mktemp -d /tmp/gocv-selftest-XXXXXX)
-  rsync -a --exclude .git /repo/ "$scr"/
+  rsync -a --exclude .git "${REPO:-/repo}"/ "$scr"/
   if ! (cd "$scr" && patch -p1 -s < "$p"); then
     echo "SELFTEST $name: patch does not apply"; fail=1; rm -rf "$scr"; continue
   fi
-  out=$(cd "$V" && GOCV_REPO="$scr" GOCV_EVIDENCE_DIR="$scr/.evidence" GOCV_REPLAY_DIR="$scr/.replays" bin/gocv check "$id" 2>&1)
+  out=$(cd "$V" && GOCV_VERIF="$V" GOCV_REPO="$scr" GOCV_EVIDENCE_DIR="$scr/.evidence" GOCV_REPLAY_DIR="$scr/.replays" bin/gocv check "$id" 2>&1)
   rc=$?
   exp=""
   [ -f "${p%.patch}.expect" ] && exp=$(cat "${p%.patch}.expect")
